@@ -1,11 +1,168 @@
 package vc
 
 import (
+	"go/types"
+	"strings"
+
 	"golang.org/x/tools/go/ssa"
 )
 
-// bigIntModel models math/big.Int methods over mathematical integers (see bigint models
-// added with the decimal contracts).
+// BigIntTrusted documents the trusted model of math/big.Int for the evidence file.
+const BigIntTrusted = "math/big.Int is modelled as a mathematical integer: NewInt/SetInt64/SetUint64/Set/Neg/Abs/Add/Sub/Mul/Sign/Cmp/IsInt64/Int64/IsUint64/Uint64 " +
+	"are exact integer operations, every other method is an uninterpreted function of the operands' values (same inputs, same result), results alias the receiver as in the library"
+
+const bigIntKey = "big.Int.val"
+
+// Bridges between machine integers and the mathematical carrier are uninterpreted
+// functions with the few laws the contracts need (no int2bv/bv2nat terms, which the
+// solvers bit-blast badly): ofI64 : BV64 -> Int is the signed value, ofU64 the unsigned
+// one, toI64 : Int -> BV64 the low 64 bits.
+func (x *Exec) bigBridges() (ofI64, ofU64, toI64 string) {
+	g := x.g
+	ofI64 = g.Fun("big:ofInt64", []string{SortBV64}, SortInt)
+	ofU64 = g.Fun("big:ofUint64", []string{SortBV64}, SortInt)
+	toI64 = g.Fun("big:low64", []string{SortInt}, SortBV64)
+	g.Assume("(forall ((v (_ BitVec 64))) (! (and (<= (- 9223372036854775808) (" + ofI64 + " v)) (<= (" + ofI64 + " v) 9223372036854775807) " +
+		"(= (" + toI64 + " (" + ofI64 + " v)) v) (= (< (" + ofI64 + " v) 0) (bvslt v (_ bv0 64))) (= (= (" + ofI64 + " v) 0) (= v (_ bv0 64)))) :pattern ((" + ofI64 + " v))))")
+	g.Assume("(forall ((v (_ BitVec 64))) (! (and (<= 0 (" + ofU64 + " v)) (<= (" + ofU64 + " v) 18446744073709551615) " +
+		"(= (" + toI64 + " (" + ofU64 + " v)) v) (= (= (" + ofU64 + " v) 0) (= v (_ bv0 64))) " +
+		"(= (<= (" + ofU64 + " v) 9223372036854775807) (bvsge v (_ bv0 64)))) :pattern ((" + ofU64 + " v))))")
+	return
+}
+
+func (x *Exec) sbvToInt(t string) string {
+	of, _, _ := x.bigBridges()
+	return "(" + of + " " + t + ")"
+}
+
+// bigIntModel models math/big.Int methods (see BigIntTrusted).
 func (f *frame) bigIntModel(n *node, callee *ssa.Function, full string, args []Val, in *ssa.Call) (Val, bool) {
-	return Val{}, false
+	x := f.x
+	g := x.g
+	rt := resultType(callee.Signature)
+	load := func(p Val) string {
+		arr := x.hget(f.heapFor(n, p), bigIntKey, SortInt, "")
+		return g.Fresh(SortInt, "(select "+arr+" "+p.C[0]+")")
+	}
+	store := func(p Val, v string) {
+		arr := x.hget(n.heap, bigIntKey, SortInt, "")
+		x.hset(n.heap, bigIntKey, SortInt, "", g.Fresh(heapArraySort(SortInt, ""), "(store "+arr+" "+p.C[0]+" "+v+")"), p.C[0])
+		for _, ep := range f.activeEpochs(n) {
+			ep.written[bigIntKey] = true
+		}
+	}
+	if full == "math/big.NewInt" {
+		x.note("trusted model: " + BigIntTrusted)
+		ref := x.newRef()
+		p := Val{T: rt, C: []string{ref}}
+		store(p, g.Fresh(SortInt, x.sbvToInt(args[0].C[0])))
+		return p, true
+	}
+	if !strings.HasPrefix(full, "(*math/big.Int).") {
+		return Val{}, false
+	}
+	x.note("trusted model: " + BigIntTrusted)
+	name := strings.TrimPrefix(full, "(*math/big.Int).")
+	recv := args[0]
+	if in != nil {
+		x.safety(f, n, "nil", "big.Int."+name, not(eq(recv.C[0], NilRef)), in.Pos())
+	}
+	isBig := func(v Val) bool {
+		p, ok := v.T.Underlying().(*types.Pointer)
+		if !ok {
+			return false
+		}
+		name, ok := isOpaque(p.Elem())
+		return ok && name == "math/big.Int"
+	}
+	lo, hi := "(- 9223372036854775808)", "9223372036854775807"
+	b := func(t string) Val { return Val{T: rt, C: []string{g.Fresh(SortBool, t)}} }
+	switch name {
+	case "IsInt64":
+		v := load(recv)
+		return b("(and (<= " + lo + " " + v + ") (<= " + v + " " + hi + "))"), true
+	case "IsUint64":
+		v := load(recv)
+		return b("(and (<= 0 " + v + ") (<= " + v + " 18446744073709551615))"), true
+	case "Int64", "Uint64":
+		v := load(recv)
+		_, _, to := x.bigBridges()
+		return Val{T: rt, C: []string{g.Fresh(SortBV64, "("+to+" "+v+")")}}, true
+	case "Sign":
+		v := load(recv)
+		return Val{T: rt, C: []string{g.Fresh(SortBV64, ite("(< "+v+" 0)", bvLit(^uint64(0), 64), ite("(= "+v+" 0)", bvLit(0, 64), bvLit(1, 64))))}}, true
+	case "Cmp":
+		a, c := load(recv), load(args[1])
+		return Val{T: rt, C: []string{g.Fresh(SortBV64, ite("(< "+a+" "+c+")", bvLit(^uint64(0), 64), ite("(= "+a+" "+c+")", bvLit(0, 64), bvLit(1, 64))))}}, true
+	case "SetInt64":
+		store(recv, g.Fresh(SortInt, x.sbvToInt(args[1].C[0])))
+		return Val{T: rt, C: recv.C}, true
+	case "SetUint64":
+		_, ofu, _ := x.bigBridges()
+		store(recv, g.Fresh(SortInt, "("+ofu+" "+args[1].C[0]+")"))
+		return Val{T: rt, C: recv.C}, true
+	case "Set":
+		store(recv, load(args[1]))
+		return Val{T: rt, C: recv.C}, true
+	case "Neg":
+		store(recv, g.Fresh(SortInt, "(- "+load(args[1])+")"))
+		return Val{T: rt, C: recv.C}, true
+	case "Abs":
+		store(recv, g.Fresh(SortInt, "(abs "+load(args[1])+")"))
+		return Val{T: rt, C: recv.C}, true
+	case "Add", "Sub", "Mul":
+		op := map[string]string{"Add": "+", "Sub": "-", "Mul": "*"}[name]
+		store(recv, g.Fresh(SortInt, "("+op+" "+load(args[1])+" "+load(args[2])+")"))
+		return Val{T: rt, C: recv.C}, true
+	}
+	// everything else: an uninterpreted function of the operand values
+	var terms, sorts []string
+	for _, a := range args {
+		switch {
+		case isBig(a):
+			terms = append(terms, load(a))
+			sorts = append(sorts, SortInt)
+		case isByteSlice(a.T):
+			arr := x.hget(f.heapFor(n, a), x.sliceKey(a)+"[]", SortBV8, SortBV64)
+			terms = append(terms, g.Fresh(arrSort(SortBV64, SortBV8), "(select "+arr+" "+a.C[0]+")"), a.C[1], a.C[2])
+			sorts = append(sorts, arrSort(SortBV64, SortBV8), SortBV64, SortBV64)
+		default:
+			cs := x.comps(a.T)
+			if len(cs) == len(a.C) {
+				for k, c := range cs {
+					if _, ok := a.T.Underlying().(*types.Basic); ok {
+						terms = append(terms, a.C[k])
+						sorts = append(sorts, c.sort)
+					}
+				}
+			}
+		}
+	}
+	sig := callee.Signature
+	returnsRecv := sig.Results().Len() >= 1 && isBig(Val{T: sig.Results().At(0).Type()})
+	if returnsRecv {
+		// a mutator: the receiver takes the function's value and is returned
+		fn := g.Fun("big:"+name, sorts, SortInt)
+		store(recv, g.Fresh(SortInt, "("+fn+" "+strings.Join(terms, " ")+")"))
+		if sig.Results().Len() == 1 {
+			return Val{T: rt, C: recv.C}, true
+		}
+		res := Val{T: rt}
+		res.Sub = append(res.Sub, Val{T: sig.Results().At(0).Type(), C: recv.C})
+		for i := 1; i < sig.Results().Len(); i++ {
+			res.Sub = append(res.Sub, x.havoc(sig.Results().At(i).Type(), "big."+name))
+		}
+		return res, true
+	}
+	// an observer with a scalar result
+	if sig.Results().Len() == 1 {
+		rc := x.comps(rt)
+		if len(rc) == 1 {
+			if _, ok := rt.Underlying().(*types.Basic); ok && !isString(rt) {
+				fn := g.Fun("big:"+name, sorts, rc[0].sort)
+				return Val{T: rt, C: []string{g.Fresh(rc[0].sort, "("+fn+" "+strings.Join(terms, " ")+")")}}, true
+			}
+		}
+	}
+	return x.havocResult(rt, "big."+name), true
 }
